@@ -189,14 +189,14 @@ U(id="vm.op.load.constant", entry="h_vo_loadc", defines=["-DVO_LOADC"],
   clause="JOP_LOAD_CONSTANT: the destination slot holds the function's constant number E unchanged; an index outside the constants raises; constants and other slots do not change; next instruction",
   mutants=[M("bound-off-by-one", "vm_assert(cindex < func->def->constants_length, \"invalid constant\");", "vm_assert(cindex <= func->def->constants_length, \"invalid constant\");", "outside the function's constants|upper bound|dereference"),
            M("index-minus-one", "stack[A] = func->def->constants[cindex];", "stack[A] = func->def->constants[cindex > 0 ? cindex - 1 : 0];", "indexed constant")])
-UPV_UND = ["closed environments with an upvalue index other than 0: CBMC 6.11 mis-translates `env->as.values[vindex]` (pointer arithmetic on a pointer read from a non-first union member), minimal reproducer in harness/vm_ops.c; index 0 and the bound check are covered"]
+UPV_UND = ["the value transfer for CLOSED environments (upvalue lives in the environment): CBMC 6.11 mis-translates `env->as.values[vindex]` (dereference of a pointer read from a non-first union member; minimal reproducer described in harness/vm_ops.c), so only the bound checks of a closed environment are covered; both kinds of open environment are fully covered"]
 UPV_ASS = ["the function has three environments: a closed one (values in the environment), an open one on another fiber's stack and an open one that is the running frame itself; environments needing re-validation after unmarshalling (negative offset) are not covered"]
 U(id="vm.op.upvalue.load", entry="h_vo_upvalue_load", defines=["-DVO_UPVALUE"], assumes=UPV_ASS, undecided_clauses=common["undecided_clauses"] + UPV_UND,
-  clause="JOP_LOAD_UPVALUE: the destination slot receives the current value of upvalue C of environment B - from the environment when it is closed, from the owning fiber's stack when it is still open (including the running frame itself); a bad environment or upvalue index raises; nothing else changes; next instruction",
+  clause="JOP_LOAD_UPVALUE: the destination slot receives the current value of upvalue C of environment B - from the owning fiber's stack when it is still open (another fiber's frame or the running frame itself; closed environments: see undecided clauses); a bad environment or upvalue index raises; nothing else changes; next instruction",
   mutants=[M("open-closed-confused", "        if (env->offset > 0) {\n            /* On stack */\n            stack[A] = env->as.fiber->data[env->offset + vindex];", "        if (env->offset < 0) {\n            /* On stack */\n            stack[A] = env->as.fiber->data[env->offset + vindex];", "upvalue's current value|dereference|bounds"),
            M("length-check-off-by-one", "        vm_assert(env->length > vindex, \"invalid upvalue index\");\n        vm_assert(janet_env_valid(env), \"invalid upvalue environment\");\n        if (env->offset > 0) {\n            /* On stack */", "        vm_assert(env->length >= vindex, \"invalid upvalue index\");\n        vm_assert(janet_env_valid(env), \"invalid upvalue environment\");\n        if (env->offset > 0) {\n            /* On stack */", "outside the environment|bound|dereference")])
 U(id="vm.op.upvalue.set", entry="h_vo_upvalue_set", defines=["-DVO_UPVALUE"], assumes=UPV_ASS, undecided_clauses=common["undecided_clauses"] + UPV_UND,
-  clause="JOP_SET_UPVALUE: upvalue C of environment B receives the value of slot A - in the environment when it is closed, on the owning fiber's stack when it is still open (including the running frame itself); a bad environment or upvalue index raises; nothing else changes; next instruction",
+  clause="JOP_SET_UPVALUE: upvalue C of environment B receives the value of slot A - on the owning fiber's stack when it is still open (another fiber's frame or the running frame itself; closed environments: see undecided clauses); a bad environment or upvalue index raises; nothing else changes; next instruction",
   mutants=[M("offset-forgotten", "env->as.fiber->data[env->offset + vindex] = stack[A];", "env->as.fiber->data[vindex] = stack[A];", "holds the source slot's value|keeps its value"),
            M("env-check-off-by-one", "        vm_assert(func->def->environments_length > eindex, \"invalid upvalue environment\");\n        env = func->envs[eindex];\n        vm_assert(env->length > vindex, \"invalid upvalue index\");\n        vm_assert(janet_env_valid(env), \"invalid upvalue environment\");\n        if (env->offset > 0) {\n            env->as.fiber", "        vm_assert(func->def->environments_length >= eindex, \"invalid upvalue environment\");\n        env = func->envs[eindex];\n        vm_assert(env->length > vindex, \"invalid upvalue index\");\n        vm_assert(janet_env_valid(env), \"invalid upvalue environment\");\n        if (env->offset > 0) {\n            env->as.fiber", "outside the function's environments|bound|dereference")])
 A_INT = "an interrupt request is the auto_suspend flag of the VM (janet_interpreter_interrupt)"
